@@ -75,8 +75,12 @@ type Step struct {
 	Source    Source   `json:"source"`
 	RelayFail []string `json:"relay_fail,omitempty"` // per relay: "" | 500 | 400 | drop | slow
 	SecFail   []string `json:"sec_fail,omitempty"`   // per secondary node: "" | error | slow
-	PrepFail  []string `json:"prep_fail,omitempty"`  // per preparation node: "" | error | notactive
+	PrepFail  []string `json:"prep_fail,omitempty"`  // per preparation node: "" | error | notactive | slow (working, 150 ms)
 	SignFail  []int    `json:"sign_fail,omitempty"`  // per validator: 0 | 1 (every request fails) | 2 (first request fails)
+	// Boundary: where the wall clock stands relative to the end of the round's epoch
+	// when the preparations are updated: "" / "far" (half an epoch ahead), "2s", "50ms",
+	// or "past" (the epoch was read just before its end, the update runs just after).
+	Boundary string `json:"boundary,omitempty"`
 	// ProviderErr: the validating-accounts provider answers with an error during this round.
 	ProviderErr bool `json:"provider_err,omitempty"`
 	// Direct: the registrations of this round are requested through the exported
@@ -464,13 +468,21 @@ func genCase(t *rapid.T) Case {
 		default:
 			s.Source = Source{Kind: "malformed", Doc: rapid.IntRange(0, len(malformedDocs)-1).Draw(t, "malformed")}
 		}
+		s.Boundary = rapid.SampledFrom([]string{"", "", "", "2s", "50ms", "50ms", "past"}).Draw(t, "boundary")
+		if s.Boundary == "50ms" && c.NPrep > 1 && chance(t, "slowFirst", 10) {
+			// a slow but working node listed before healthy ones
+			s.PrepFail = make([]string, c.NPrep)
+			s.PrepFail[rapid.IntRange(0, c.NPrep-2).Draw(t, "slowNode")] = "slow"
+		}
 		s.ProviderErr = chance(t, "providerErr", 2)
 		s.Direct = i > 0 && !s.ProviderErr && chance(t, "direct", 3)
 		if calm {
 			continue
 		}
 		s.SecFail = genMask(t, c.NSecondary, 25, []string{"error", "slow"}, "secFail")
-		s.PrepFail = genMask(t, c.NPrep, 30, []string{"error", "notactive"}, "prepFail")
+		if s.PrepFail == nil {
+			s.PrepFail = genMask(t, c.NPrep, 30, []string{"error", "notactive", "slow"}, "prepFail")
+		}
 		var sf []int
 		any := false
 		for v := 0; v < nV; v++ {
@@ -775,6 +787,35 @@ func (w *world) activity() int {
 	return n + w.provider.nCalls()
 }
 
+const epochDuration = slotsPerEpoch * 12 * time.Second
+
+// anchor relates chain time to the wall clock: the chain clock is placed inside
+// epoch `epoch` such that the start of the next epoch lies `ahead` after the
+// present wall-clock instant (ahead <= 0: the chain clock reads the last
+// millisecond of the epoch although the wall clock is already past its end - an
+// epoch read just before the boundary and used just after).
+func anchor(clock *fakes.VClock, epoch uint64, ahead time.Duration) {
+	boundary := time.Now().Add(ahead)
+	clock.Genesis = boundary.Add(-time.Duration(epoch+1) * epochDuration)
+	into := epochDuration - ahead
+	if ahead <= 0 {
+		into = epochDuration - time.Millisecond
+	}
+	clock.Set(clock.Genesis.Add(time.Duration(epoch)*epochDuration + into))
+}
+
+func boundaryAhead(b string) time.Duration {
+	switch b {
+	case "2s":
+		return 2 * time.Second
+	case "50ms":
+		return 50 * time.Millisecond
+	case "past":
+		return -300 * time.Millisecond
+	}
+	return epochDuration / 2
+}
+
 // run executes the history; a non-nil error is a harness problem.
 func run(c *Case) (*world, error) {
 	initKeys()
@@ -844,7 +885,7 @@ func run(c *Case) (*world, error) {
 			continue
 		}
 
-		clock.SetSlot(s.Epoch*slotsPerEpoch+3, time.Second)
+		anchor(clock, s.Epoch, epochDuration/2)
 		w.source.set(s.Source)
 		w.provider.setFail(s.ProviderErr)
 		if relaySvc == nil {
@@ -925,6 +966,7 @@ func run(c *Case) (*world, error) {
 			}
 		}
 
+		anchor(clock, s.Epoch, boundaryAhead(s.Boundary))
 		if err := preparer.UpdatePreparations(ctx); err != nil {
 			w.notes = append(w.notes, fmt.Sprintf("step %d: UpdatePreparations: %v", i, err))
 		}
@@ -1088,6 +1130,7 @@ type stats struct {
 	reuse, multiContent, activationEdge, exitEdge, legacy, fetchFail, restForward, restDrop bool
 	unresolvableNextToOthers                                                                bool
 	providerErr, direct, earlyThenNormal                                                    bool
+	nearBoundary, slowNearBoundary                                                          bool
 	inactiveSeen, emptyRound                                                                bool
 	regsChecked                                                                             int
 }
@@ -1369,6 +1412,12 @@ func judge(c *Case, w *world) ([]verdict, stats) {
 				if at(s.PrepFail, n) != "" {
 					st.prepFail, st.failMask = true, true
 				}
+				if at(s.PrepFail, n) == "slow" && n < len(w.preps)-1 && (s.Boundary == "50ms" || s.Boundary == "past") {
+					st.slowNearBoundary = true
+				}
+			}
+			if s.Boundary == "50ms" || s.Boundary == "past" {
+				st.nearBoundary = true
 			}
 		}
 		signFailed := map[int]bool{}
@@ -1486,14 +1535,19 @@ func judge(c *Case, w *world) ([]verdict, stats) {
 		}
 		for n, sn := range w.secs {
 			var calls []secCall
+			refused := ""
 			for _, call := range sn.take() {
 				if call.Step == i {
+					if call.Refused != "" {
+						refused = " (it was called on a context that had already ended: " + call.Refused + ")"
+						continue
+					}
 					calls = append(calls, call)
 				}
 			}
 			if len(calls) == 0 {
 				if demand {
-					fail(stopped("registrations", "secondary-node-not-served"), "round at step %d: secondary beacon node %d (mode %q) received no registrations although validators with relays were registered; masks: relays %v secondary %v", i, n, at(s.SecFail, n), s.RelayFail, s.SecFail)
+					fail(stopped("registrations", "secondary-node-not-served"), "round at step %d: secondary beacon node %d (mode %q) received no registrations although validators with relays were registered%s; masks: relays %v secondary %v", i, n, at(s.SecFail, n), refused, s.RelayFail, s.SecFail)
 				}
 				continue
 			}
@@ -1546,13 +1600,18 @@ func judge(c *Case, w *world) ([]verdict, stats) {
 		if hasRes {
 			for n, pn := range w.preps {
 				var calls []prepCall
+				refused := ""
 				for _, call := range pn.take() {
 					if call.Step == i {
+						if call.Refused != "" {
+							refused = " (it was called on a context that had already ended: " + call.Refused + ")"
+							continue
+						}
 						calls = append(calls, call)
 					}
 				}
 				if len(calls) == 0 {
-					fail(stopped("preparations", "prep-node-not-called"), "round at step %d: beacon node %d (mode %q) received no proposal preparations; node masks %v", i, n, at(s.PrepFail, n), s.PrepFail)
+					fail(stopped("preparations", "prep-node-not-called"), "round at step %d: beacon node %d (mode %q) received no proposal preparations%s; node masks %v, end of epoch %q", i, n, at(s.PrepFail, n), refused, s.PrepFail, s.Boundary)
 					continue
 				}
 				if len(calls) > 1 {
@@ -1619,6 +1678,8 @@ func check(t ev.TB, c *Case) {
 	add(st.relayFail, "relay-failure")
 	add(st.secFail, "secondary-node-failure")
 	add(st.prepFail, "preparation-node-failure")
+	add(st.nearBoundary, "preparations-updated-at-end-of-epoch")
+	add(st.slowNearBoundary, "slow-working-node-before-others-at-end-of-epoch")
 	add(st.signFail, "signing-failure")
 	add(st.activationEdge, "validator-activating-next-epoch")
 	add(st.exitEdge, "validator-exiting-next-epoch")
